@@ -599,6 +599,120 @@ def r13h(ctx):
                        f"judged by the container the lookup runs on and refused")
 
 
+def r13i(ctx):
+    """What is inserted as a new style is a new style.
+
+    insert_style() appends the object it is given to its destination container (lxml moves a node that already has a parent) and the
+    caller usually renames it first.  A style obtained from a lookup is the document's own: renaming and inserting it takes the existing
+    style away from every element that refers to it by name, and out of the container it was found in.  Rule: in Document, the object
+    handed to `insert_style` is built in the function (constructor, from_tag, `.clone` of something) or is a parameter; a value that may
+    come straight from a get_*style* lookup is accepted only under a test that the lookup found nothing.
+    """
+    repo = ctx.repo
+    ctx.rule("R13i", "Document methods hand insert_style a style they built or cloned, never the object a lookup returned", floor=2)
+    c = repo.cls("Document")
+    n = 0
+    for name, fs in sorted(c.methods.items()):
+        f = fs[0]
+        if name == "insert_style":
+            continue
+        params = {a.arg for a in f.all_params()}
+        defs: dict[str, list[ast.expr]] = {}
+        for a in walk_no_nested(f.node):
+            if isinstance(a, ast.Assign):
+                for t in a.targets:
+                    if isinstance(t, ast.Name):
+                        defs.setdefault(t.id, []).append(a.value)
+
+        def lookup_origin(e, depth=0):
+            """names of lookups the value may come from un-copied"""
+            if depth > 3:
+                return set()
+            if isinstance(e, ast.Call) and "style" in call_name(e) and call_name(e).lstrip("_").startswith("get"):
+                return {call_name(e)}
+            if isinstance(e, ast.Name) and e.id not in params:
+                out = set()
+                for d in defs.get(e.id, []):
+                    out |= lookup_origin(d, depth + 1)
+                return out
+            return set()
+
+        for call in [x for x in walk_no_nested(f.node) if isinstance(x, ast.Call) and call_name(x) == "insert_style" and x.args and isinstance(x.args[0], ast.Name)]:
+            n += 1
+            v = call.args[0]
+            origins = lookup_origin(v)
+            # accepted when the call sits under `not <v>` (the lookup found nothing, the other definition applies)
+            excused = any((not pol and isinstance(t, ast.Name) and t.id == v.id) or (pol and isinstance(t, ast.UnaryOp) and isinstance(t.op, ast.Not) and isinstance(t.operand, ast.Name) and t.operand.id == v.id)
+                          or (isinstance(t, ast.Compare) and isinstance(t.left, ast.Name) and t.left.id == v.id and isinstance(t.comparators[0], ast.Constant) and t.comparators[0].value is None
+                              and ((isinstance(t.ops[0], ast.Is) and pol) or (isinstance(t.ops[0], ast.IsNot) and not pol)))
+                          for t, pol in structural_guards(call, stop=f.node))
+            ok = not origins or excused
+            ctx.instance("R13i", f"{f.file}:{f.ident}", f"`{norm(call, 40)}`: " + ("built or cloned here" if not origins else ("only when the lookup found nothing" if excused else f"may be the object returned by {sorted(origins)}")),
+                         ok=ok, nontrivial=True, line=call.lineno)
+            if not ok:
+                ctx.report("R13i", f, call, norm(call, 60),
+                           f"{f.ident} inserts `{v.id}`, which may be the very object {sorted(origins)[0]}() returned (no .clone on the way): the style the document already uses is renamed "
+                           f"and moved — elements that refer to it by its old name lose their style, and it leaves the container it was defined in")
+    if n == 0:
+        raise AnalysisError("R13i: no insert_style call with a local in Document")
+
+
+def r13j(ctx):
+    """A name is looked up as a name.
+
+    Styles have an internal name (`style:name`, "Text_20_body") and a display name ("Text body"); the lookups take each under its own
+    parameter.  insert_style and merge_styles_from ask `get_style(family, name)` which style to replace: a lookup that quietly retries the
+    name as a display name answers with another style of the family, and that one is deleted.  Rule: in every `get_style` of the package,
+    a call that passes `display_name=` passes the display_name parameter (or a constant), never a value derived from the name parameter,
+    and the reverse.
+    """
+    repo = ctx.repo
+    ctx.rule("R13j", "style lookups forward the name as name and the display name as display name (no cross-over, no retry under the other key)", floor=4)
+    NAME_KW = {"name_or_element", "style_name", "name"}
+    n = 0
+    for f in repo.all_funcs():
+        if f.name != "get_style":
+            continue
+        params = {a.arg for a in f.all_params()}
+        defs: dict[str, set[str]] = {}
+        for a in walk_no_nested(f.node):
+            if isinstance(a, ast.Assign) and len(a.targets) == 1 and isinstance(a.targets[0], ast.Name):
+                defs.setdefault(a.targets[0].id, set()).update(x.id for x in ast.walk(a.value) if isinstance(x, ast.Name))
+
+        def roots(e):
+            out, work, seen = set(), [x.id for x in ast.walk(e) if isinstance(x, ast.Name)], set()
+            while work:
+                nm = work.pop()
+                if nm in seen:
+                    continue
+                seen.add(nm)
+                if nm in params:
+                    out.add(nm)
+                work += list(defs.get(nm, ()))
+            return out
+
+        for c in walk_no_nested(f.node):
+            if not isinstance(c, ast.Call):
+                continue
+            for k in c.keywords:
+                if k.arg == "display_name":
+                    r = roots(k.value)
+                    ok = not (r & NAME_KW)
+                elif k.arg in NAME_KW:
+                    r = roots(k.value)
+                    ok = "display_name" not in r
+                else:
+                    continue
+                n += 1
+                ctx.instance("R13j", f"{f.file}:{f.ident}", f"`{k.arg}={norm(k.value, 30)}` comes from {sorted(r) or 'a constant'}", ok=ok, nontrivial=True, line=c.lineno)
+                if not ok:
+                    ctx.report("R13j", f, c, f"{norm(c, 60)}",
+                               f"{f.ident} passes `{norm(k.value, 30)}` (from parameter {sorted(r)}) as `{k.arg}`: a style asked for by its name is also searched by display name (or the "
+                               f"reverse), so another style of the family answers — and is the one insert_style / merge_styles_from then replaces")
+    if n < 4:
+        raise AnalysisError(f"R13j: only {n} keyword forwardings found in the get_style family")
+
+
 def run(ctx):
     r13ab(ctx)
     r13c(ctx)
@@ -607,6 +721,8 @@ def run(ctx):
     r13f(ctx)
     r13g(ctx)
     r13h(ctx)
+    r13i(ctx)
+    r13j(ctx)
 
 
 from ..selftest import Seed, unparse_seed  # noqa: E402
@@ -614,6 +730,9 @@ from ..selftest import Seed, unparse_seed  # noqa: E402
 _DOC = "src/odfdo/document.py"
 _ST = "src/odfdo/styles.py"
 SEEDS = [
+    Seed("Styles.get_style retries the name as a display name", "fault", _ST, "        for context in self._get_style_contexts(family):\n            if context is None:\n                continue\n            style = context.get_style(",
+         "        if name_or_element and isinstance(name_or_element, str) and not display_name and family == \"none\":\n            return self.get_style(family, display_name=name_or_element)\n        for context in self._get_style_contexts(family):\n            if context is None:\n                continue\n            style = context.get_style(", "R13j"),
+    Seed("set_table_displayed renames and moves the style in use", "fault", _DOC, "        new_style = orig_style.clone\n", "        new_style = orig_style\n", "R13i"),
     Seed("Element.get_style drops the family when a name is given", "fault", "src/odfdo/element.py",
          "                style_name=style_name,\n                display_name=display_name,\n                family=family,\n            )",
          "                style_name=style_name,\n                display_name=display_name,\n                family=family if is_default else None,\n            )", "R13h"),
